@@ -103,6 +103,23 @@ def r1_r2(ck, F):
     else:
         ck.bad("C12.R1", "modify: upgrade, write lock, closure, unlock, rebuild_interest_cache, Ok", where(b.raw["sp"]),
                "; ".join(bad) or "no path returns Ok", fn=b.path)
+    # with the tracing-log bridge compiled in, `log`'s own max level is one more cached maximum in front of the new
+    # filter (for records that arrive through LogTracer): every Ok path republishes it after the rebuild, unconditionally
+    # (Dispatch::new elsewhere moves tracing's max level without touching log's, so "unchanged" proves nothing)
+    sets = [bb for bb, t in b.calls() if t["callee"].get("path") == "log::set_max_level"]
+    if sets:
+        rebuilds = [bb for bb, t in b.calls() if t["callee"].get("path") in REBUILD]
+        good = len(sets) == 1 and len(rebuilds) == 1 and b.dominates(rebuilds[0], sets[0])
+        if good:
+            for p in PathEval(b).run():
+                if p.end == "return" and rebuilds[0] in p.blocks and sets[0] not in p.blocks:
+                    good = False
+        key = "modify: the log crate's max level is republished after every successful reload [%s]" % (ck.tag or "default")
+        if good:
+            ck.ok("C12.R1", key, fn=b.path)
+        else:
+            ck.bad("C12.R1", key, where(b.raw["sp"]), "log::set_max_level is skipped on some path that rebuilt the interest cache: log records the new filter "
+                   "enables stay suppressed by a stale log::max_level()", fn=b.path)
     if err_ok and err_seen == {"gone", "poisoned"}:
         ck.ok("C12.R2", "modify: dead collector -> CollectorGone, poisoned lock -> Poisoned, closure not run", fn=b.path)
     else:
